@@ -24,7 +24,12 @@ applies, the full suite passes with it, the demo fails with it and passes withou
 evidence redirected to a scratch directory) and undid it. Every change is kept as
 `seeded/<id>/{patch.diff, demo.rs, notes.md, meta.json}`. Several agents independently
 produced the same slip (they are kept: they show which sites attract mistakes), several
-re-introduced defects of section 6, and one reported the K1 limitation on its own.
+re-introduced defects of section 6, and two reported the then-known K1 limitation on their
+own. Thirteen patches touch the lines that fix commit `4aeff50` (F14) changed later; they were
+ported onto the new HEAD (same change, original kept as `patch.before-4aeff50.diff`) and
+re-confirmed; all 119 Rust demos pass on the final unchanged tree. `seeded/MATRIX.json` is the
+result of re-running every change against its check(s) on the final tree
+(`tools/seeded_matrix.py`).
 
 **Result: every change is caught by at least one check, and all but one by the check of the
 property it was aimed at** (`C01-d`, a write-failure change, is outside C01's quantifier and is
